@@ -462,3 +462,239 @@ pub fn wrap_rotating(t: TD, i: usize) -> ND {
         }
     }
 }
+
+/// What a many-threads-at-once phase observed.
+pub struct Concurrent {
+    pub threads: usize,
+    pub calls: u64,
+    pub kept: usize,
+    pub failure: Option<String>,
+}
+
+/// Many threads inside the library at the same time.  Every case is first evaluated alone on the calling
+/// thread and dropped unless it holds there, so whatever fails in the concurrent phase fails *because*
+/// other threads were inside the library (or because the outcome is not a function of the input at all).
+/// Two threads per core start together behind a barrier; every thread walks all cases `rounds` times in
+/// its own rotation, so that neighbouring threads are in different cases of the same entry points.
+pub fn many_threads_at_once<C: Send + Sync + 'static>(cases: Vec<C>, rounds: usize, job: fn(&C) -> Option<String>) -> Concurrent {
+    use std::sync::atomic::{AtomicBool, AtomicU64, Ordering};
+    use std::sync::{Arc, Mutex};
+    let cases: Vec<C> = cases.into_iter().filter(|c| matches!(std::panic::catch_unwind(std::panic::AssertUnwindSafe(|| job(c))), Ok(None))).collect();
+    let kept = cases.len();
+    let nthreads = 2 * std::thread::available_parallelism().map(|n| n.get()).unwrap_or(4).clamp(4, 16);
+    if kept == 0 {
+        return Concurrent { threads: nthreads, calls: 0, kept, failure: None };
+    }
+    let cases = Arc::new(cases);
+    // ... plus a few threads that do nothing but work through *other* vocabularies meanwhile (the three
+    // shipped formats and their permuted-vocabulary copies: 18 enum vocabularies, re-folded lexical values,
+    // a hash), so that whatever the library shares between formats - a table cache with a handful of
+    // slots, an interner - is being refilled by somebody else while the workers depend on it
+    const NOISE: usize = 4;
+    // (a flag, not a Barrier: a thread that could not be started must not leave the others waiting for ever)
+    let barrier = Arc::new(AtomicBool::new(false));
+    let done = Arc::new(AtomicBool::new(false));
+    let noise: Vec<_> = (0..NOISE)
+        .filter_map(|ni| {
+            let (barrier, done) = (barrier.clone(), done.clone());
+            std::thread::Builder::new()
+                .stack_size(16 << 20)
+                .spawn(move || {
+                    while !barrier.load(Ordering::Acquire) {
+                        std::thread::yield_now();
+                    }
+                    let mut i = ni;
+                    while !done.load(Ordering::Relaxed) {
+                        prelude(crate::names::ALL_FMT[i % 3]);
+                        i += 1;
+                    }
+                })
+                .ok()
+        })
+        .collect();
+    let stop = Arc::new(AtomicBool::new(false));
+    let calls = Arc::new(AtomicU64::new(0));
+    let first = Arc::new(Mutex::new(None::<String>));
+    let hs: Vec<_> = (0..nthreads)
+        .filter_map(|ti| {
+            let (cases, barrier, stop, calls, first) = (cases.clone(), barrier.clone(), stop.clone(), calls.clone(), first.clone());
+            std::thread::Builder::new()
+                .stack_size(16 << 20)
+                .spawn(move || {
+                    while !barrier.load(Ordering::Acquire) {
+                        std::thread::yield_now();
+                    }
+                    let n = cases.len();
+                    let mut mine = 0u64;
+                    'all: for r in 0..rounds {
+                        for i in 0..n {
+                            if stop.load(Ordering::Relaxed) {
+                                break 'all;
+                            }
+                            let idx = (i * 7 + ti * 3 + r) % n;
+                            let out = std::panic::catch_unwind(std::panic::AssertUnwindSafe(|| job(&cases[idx])));
+                            mine += 1;
+                            let why = match out {
+                                Ok(None) => continue,
+                                Ok(Some(w)) => w,
+                                Err(p) => format!("panicked: {}", crate::guard::payload_text(&p)),
+                            };
+                            if let Ok(mut g) = first.lock() {
+                                g.get_or_insert(format!("thread {} of {}, round {}: {}", ti, nthreads, r, why));
+                            }
+                            stop.store(true, Ordering::Relaxed);
+                            break 'all;
+                        }
+                    }
+                    calls.fetch_add(mine, Ordering::Relaxed);
+                })
+                .ok()
+        })
+        .collect();
+    barrier.store(true, Ordering::Release);
+    for h in hs {
+        let _ = h.join();
+    }
+    done.store(true, Ordering::Relaxed);
+    for h in noise {
+        let _ = h.join();
+    }
+    let failure = first.lock().ok().and_then(|g| g.clone());
+    Concurrent { threads: nthreads, calls: calls.load(Ordering::Relaxed), kept, failure }
+}
+
+/// run one concurrent phase and report: `sig_prefix|concurrent|<label>`; the witness asks for a re-run of the fixed families
+pub fn concurrent_family<C: Send + Sync + 'static>(ctx: &mut crate::Ctx, prop: &str, label: &str, cases: Vec<C>, rounds: usize, job: fn(&C) -> Option<String>) {
+    ctx.report.eval();
+    ctx.report.bump("family.many-threads-at-once");
+    let c = many_threads_at_once(cases, rounds, job);
+    ctx.report.bump_by("many-threads-at-once.calls", c.calls);
+    ctx.report.hist_max("max.threads_at_once", c.threads as u64);
+    if let Some(w) = c.failure {
+        ctx.report.violate(
+            format!("{}|concurrent|{}", prop, label),
+            format!("[{}] holds for each of {} cases alone, fails while {} threads work through them at the same time: {}", label, c.kept, c.threads, w.chars().take(500).collect::<String>()),
+            J::obj().set("concurrent", true).set("label", label).set("why", w),
+        );
+    }
+}
+
+/// Inputs of format `f` that the enum parser rejects, each failing at a different point: inside an atom
+/// name (an interval that is not a number, one that overflows), inside an unclosed compound / set /
+/// statement, in a truth, budget or stamp that never closes, after a complete term.  Computed once.
+pub fn rejected_inputs(f: Fmt) -> &'static [String] {
+    static CACHE: std::sync::OnceLock<Vec<Vec<String>>> = std::sync::OnceLock::new();
+    let all = CACHE.get_or_init(|| {
+        crate::names::ALL_FMT
+            .iter()
+            .map(|f| {
+                let e = f.e();
+                let mut v: Vec<String> = vec![
+                    format!("{}12x", e.atom.prefix_interval),
+                    format!("{}99999999999999999999999999999999", e.atom.prefix_interval),
+                    format!("{}{} A{} {}12x{}", e.compound.brackets.0, e.compound.connecter_conjunction_sequential, e.compound.separator, e.atom.prefix_interval, e.compound.brackets.1),
+                    format!("{}{}{} abc{} def", e.compound.brackets.0, e.compound.connecter_product, e.compound.separator, e.compound.separator),
+                    format!("{}abc{} def", e.compound.brackets_set_extension.0, e.compound.separator),
+                    format!("{}abc {} def", e.statement.brackets.0, e.statement.copula_inheritance),
+                    format!("{}abc {}", e.statement.brackets.0, e.statement.copula_similarity),
+                    format!("abc{} {}1{}0.9", e.sentence.punctuation_judgement, e.sentence.truth_brackets.0, e.sentence.truth_separator),
+                    format!("{}0.5{}0.5 abc{}", e.task.budget_brackets.0, e.task.budget_separator, e.sentence.punctuation_goal),
+                    format!("abc{} {}12x", e.sentence.punctuation_question, e.sentence.stamp_fixed),
+                    format!("{}abc{}xyz", e.atom.prefix_variable_query, e.compound.brackets.1),
+                    format!("{}0.5{} {}0.7{}", e.task.budget_brackets.0, e.task.budget_brackets.1, e.sentence.truth_brackets.0, e.sentence.truth_brackets.1),
+                    format!("{}", e.sentence.punctuation_goal),
+                ];
+                v.retain(|s| matches!(enum_parse(*f, s), Out::Err(_)));
+                v
+            })
+            .collect()
+    });
+    &all[crate::names::ALL_FMT.iter().position(|x| *x == f).unwrap()]
+}
+
+fn poke_char_pred(c: char) -> bool {
+    if c == '\u{2620}' {
+        panic!("user-supplied character predicate gives up");
+    }
+    c.is_alphanumeric() || c == '_'
+}
+
+/// Something goes wrong on this thread before the next case: step `i` picks a format and one of its
+/// rejected inputs for the enum parser and for the lexical parser (+ fold), a refused mutation, and every
+/// 8th time a *caught panic* inside the library - a user-built format whose character predicate panics in
+/// the middle of an atom name, a user iterator that panics after its first item inside `parse_multi`
+/// and inside the image constructors.  Nothing is checked here: the case that follows is.
+pub fn something_fails_first(i: usize) {
+    let f = crate::names::ALL_FMT[i % 3];
+    let pool = rejected_inputs(f);
+    if pool.is_empty() {
+        return;
+    }
+    let s = &pool[(i / 3) % pool.len()];
+    let _ = observe(|| {
+        let _ = f.e().parse::<Narsese>(s);
+        if let Ok(lx) = f.l().parse(s) {
+            let _: Result<Narsese, _> = lx.try_fold_into(f.e());
+        }
+        if let Ok(t) = f.l().parse_term(s) {
+            let _: Result<narsese::enum_narsese::Term, _> = t.try_fold_into(f.e());
+        }
+        let mut t = narsese::enum_narsese::Term::new_interval(7);
+        let _ = t.set_atom_name("18446744073709551616");
+        let mut w = narsese::enum_narsese::Term::new_word("w");
+        let _ = w.set_atom_name("");
+    });
+    if i % 8 == 0 {
+        let _ = observe(|| {
+            let mut uf = match f {
+                Fmt::Ascii => narsese::conversion::string::impl_enum::format_instances::FORMAT_ASCII,
+                Fmt::Latex => narsese::conversion::string::impl_enum::format_instances::FORMAT_LATEX,
+                Fmt::Han => narsese::conversion::string::impl_enum::format_instances::FORMAT_HAN,
+            };
+            uf.is_valid_atom_name = poke_char_pred;
+            let _ = uf.parse::<Narsese>(&format!("{}ab\u{2620}c {} d{}", uf.statement.brackets.0, uf.statement.copula_inheritance, uf.statement.brackets.1));
+        });
+        let _ = observe(|| {
+            let good = format!("{}abc{} def{}", f.e().compound.brackets_set_extension.0, f.e().compound.separator, f.e().compound.brackets_set_extension.1);
+            let mut n = 0;
+            let it = std::iter::from_fn(|| {
+                n += 1;
+                if n > 2 {
+                    panic!("user iterator gives up");
+                }
+                Some(good.as_str())
+            });
+            let _ = f.e().parse_multi(it);
+        });
+        let _ = observe(|| {
+            use narsese::enum_narsese::Term;
+            let mut n = 0;
+            let it = std::iter::from_fn(|| {
+                n += 1;
+                if n > 2 {
+                    panic!("user iterator gives up");
+                }
+                Some(Term::new_word(["r", "x", "y"][n % 3]))
+            });
+            let _ = Term::new_product(it);
+        });
+        let _ = observe(|| {
+            // the public string templates all formatters share, fed by a user iterator that panics after two items
+            let mut out = String::new();
+            let mut n = 0;
+            let it = std::iter::from_fn(|| {
+                n += 1;
+                if n > 2 {
+                    panic!("user iterator gives up");
+                }
+                Some(format!("X{}", n))
+            });
+            narsese::conversion::string::template_compound(&mut out, "(", "*", it, ",", " ", ")");
+        });
+        let _ = observe(|| {
+            use narsese::enum_narsese::Term;
+            let _ = Term::to_image_extension_with_placeholder(vec![Term::new_word("r"), Term::new_word("x")]);
+            let _ = Term::to_image_intension_with_placeholder(vec![Term::new_word("r"), Term::new_word("x")]);
+        });
+    }
+}
